@@ -81,7 +81,10 @@ def pairwise {α} : List α → List (α × α)
   | a :: b :: rest => (a, b) :: pairwise (b :: rest)
   | _ => []
 
-def hasDup (l : List Int) : Bool := l.eraseDups.length != l.length
+/-- `np.any(np.diff(l) < 2)`: two consecutive split lines leave no room interior between them -/
+def tooClose : List Int → Bool
+  | a :: b :: rest => decide (b - a < 2) || tooClose (b :: rest)
+  | _ => false
 
 def listMin (l : List Int) : Int := l.foldl min (l.headD 0)
 def listMax (l : List Int) : Int := l.foldl max (l.headD 0)
@@ -117,8 +120,8 @@ def drawPassages (g : Grid) (ys xs : List Int) (d : DrawSt) : Except PyErr (Grid
 /-- the validated room grid with passages, shared by `rooms` and `memory_rooms` -/
 def roomsGrid (sh : Shape) (lh lw : Int) (ys xs : List Int) (d : DrawSt) : Except PyErr (Grid × DrawSt) :=
   if lh < 1 || lw < 1 then .error .valueError else
-  if hasDup ys then .error .valueError else
-  if hasDup xs then .error .valueError else
+  if tooClose ys then .error .valueError else
+  if tooClose xs then .error .valueError else
   let g0 := Grid.fill sh.h.toNat sh.w.toNat .floor
   match drawRoomGrid g0 ys xs with
   | .error e => .error e
